@@ -111,7 +111,11 @@ def _run_variant(ctx, model, d, tag, check_nodes=True, built=None, rel=1e-9):
             integer = c["args"].get("DataType") in ("Integer", "Positive Integer")
             miss = c["args"].get("MissingVal", c["args"].get("MissingValue"))
             want = []
-            for v in col["data"]:
+            fm = set(col.get("filemask") or [])
+            for j_, v in enumerate(col["data"]):
+                if j_ in fm:
+                    want.append(None)        # missing in the file itself
+                    continue
                 vv = int(v) if integer else float(v)
                 if c["args"].get("DataType") == "Fuzzy":
                     vv = min(1.0, max(-1.0, vv))      # read as fuzzy: limited to the fuzzy range
